@@ -173,3 +173,50 @@ Proof.
     rewrite getth_upd_eq by exact Ht. split; [reflexivity|]. split; [apply upd_length|].
     split; [intros u Hu _; apply getth_upd_ne; exact Hu|]. split; [reflexivity|]. cbn [refs excl mustfree]. auto.
 Qed.
+
+(* ---------- the other thread of a loan ---------- *)
+Lemma lend_spec s t c s' : step s t (ALend c) = Ok s' ->
+  c <> t /\ c < length (ths s) /\ started (getth s c) = false
+  /\ started (getth s' c) = true /\ refs (getth s' c) = 0 /\ excl (getth s' c) = false /\ mustfree (getth s' c) = false
+  /\ lend (getth s' c) = S t.
+Proof.
+  intros H. unfold step in H.
+  destruct (Nat.ltb_spec t (length (ths s))) as [Ht|Ht]; cbn [negb] in H; [|discriminate].
+  destruct (started (getth s t)) eqn:Hst; cbn [negb] in H; [|discriminate].
+  destruct (Nat.eqb_spec c t) as [Hct|Hct]; cbn [orb] in H; [discriminate|].
+  destruct (Nat.ltb_spec c (length (ths s))) as [Hc|Hc]; cbn [negb orb] in H; [|discriminate].
+  destruct (started (getth s c)) eqn:Hsc; cbn [orb] in H; [discriminate|].
+  destruct (negb (Nat.ltb 0 (refs (getth s t)))); cbn [orb] in H; [discriminate|].
+  destruct (Nat.eqb_spec (lend (getth s t)) 0) as [Hl0|Hl0]; cbn [negb] in H; [|discriminate].
+  injection H as <-. unfold with_th, getth; cbn [ths].
+  rewrite getth_upd_eq by (rewrite upd_length; exact Hc). cbn [started refs excl mustfree lend].
+  repeat split; auto.
+Qed.
+
+Lemma joinb_spec s t c s' : step s t (AJoinB c) = Ok s' ->
+  c <> t /\ c < length (ths s)
+  /\ refs (getth s' c) = refs (getth s c) /\ excl (getth s' c) = excl (getth s c)
+  /\ mustfree (getth s' c) = mustfree (getth s c) /\ pend (getth s' c) = pend (getth s c)
+  /\ clk (getth s' c) = clk (getth s c) /\ started (getth s' c) = started (getth s c).
+Proof.
+  intros H. unfold step in H.
+  destruct (Nat.ltb_spec t (length (ths s))) as [Ht|Ht]; cbn [negb] in H; [|discriminate].
+  destruct (started (getth s t)) eqn:Hst; cbn [negb] in H; [|discriminate].
+  destruct (Nat.eqb_spec c t) as [Hct|Hct]; cbn [orb] in H; [discriminate|].
+  destruct (Nat.ltb_spec c (length (ths s))) as [Hc|Hc]; cbn [negb orb] in H; [|discriminate].
+  destruct (_ || _ || _) eqn:Hg; [discriminate|].
+  injection H as <-. unfold with_th, getth; cbn [ths].
+  rewrite getth_upd_eq by (rewrite upd_length; exact Hc). cbn [started refs excl mustfree lend pend clk].
+  repeat split; auto.
+Qed.
+Lemma joinb_lend s t c s' : step s t (AJoinB c) = Ok s' -> lend (getth s' c) = 0.
+Proof.
+  intros H. unfold step in H.
+  destruct (Nat.ltb_spec t (length (ths s))) as [Ht|Ht]; cbn [negb] in H; [|discriminate].
+  destruct (started (getth s t)) eqn:Hst; cbn [negb] in H; [|discriminate].
+  destruct (Nat.eqb_spec c t) as [Hct|Hct]; cbn [orb] in H; [discriminate|].
+  destruct (Nat.ltb_spec c (length (ths s))) as [Hc|Hc]; cbn [negb orb] in H; [|discriminate].
+  destruct (_ || _ || _) eqn:Hg; [discriminate|].
+  injection H as <-. unfold with_th, getth; cbn [ths].
+  rewrite getth_upd_eq by (rewrite upd_length; exact Hc). reflexivity.
+Qed.
